@@ -90,8 +90,8 @@ fn make_name(rng: &mut Rng, i: usize, profile: Profile) -> String {
         // one time in five: a family of names that are prefixes / case variants / padded
         // variants of one another
         if rng.chance(1, 5) {
-            let fam = ["p", "pp", "ppp", "P", "p ", " p", "p\u{0}", "p/", "pp "];
-            return fam[(i + rng.below(3) as usize * 3) % fam.len()].to_string();
+            let fam = ["p", "pp", "ppp", "P", "p ", " p", "p\u{0}", "p/", "pp ", "", "\u{0}", "pppp"];
+            return fam[(i + rng.below(4) as usize * 3) % fam.len()].to_string();
         }
         return match rng.below(6) {
             0 => format!("q{}", i),
